@@ -224,6 +224,14 @@ func buildFixtures(seed uint64) *Fix {
 	return f
 }
 
+// pkBuf returns the calling task's own reusable public-key buffer.
+func (f *Fix) pkBuf(h *held) *[dilithium.CryptoPublicKeyBytes]uint8 {
+	if h == nil {
+		return new([dilithium.CryptoPublicKeyBytes]uint8)
+	}
+	return &h.pk
+}
+
 // lateBad replaces the k-th word from the end of a mnemonic by a non-word.
 func lateBad(m string, k int) string {
 	ws := strings.Split(m, " ")
@@ -280,7 +288,7 @@ type Call struct {
 
 var callKinds = []string{
 	"xverify", "xverifyw", "xaddr", "xlegaddr", "xvalid", "xlegvalid", "xdesc", "xdescnew",
-	"dverify", "dverifymany", "dopen", "daddr", "dvalid", "dsign", "dseal", "dget", "dextract",
+	"dverify", "dverifymany", "dverifybuf", "dopen", "daddr", "dvalid", "dsign", "dseal", "dget", "dextract",
 	"m2seed", "m2ext", "seed2m", "ext2m",
 	"dnewseed", "dnewhex", "dnewmnem", "dnewrand",
 	"psign", "pset", "pget", "xnew", "xnewext",
@@ -310,7 +318,10 @@ func bb(b bool) []byte {
 // that the harness can check after the run that nothing rewrote them later: a
 // result that changes after it was returned is not "the result it returns when
 // run alone".
-type held struct{ items []heldItem }
+type held struct {
+	items []heldItem
+	pk    [dilithium.CryptoPublicKeyBytes]uint8 // this task's reusable public-key buffer
+}
 type heldItem struct {
 	call string
 	s    string
@@ -393,7 +404,15 @@ func (f *Fix) exec(c Call, priv *xmss.XMSS, h *held) (res string) {
 		by := d.GetBytes()
 		return digestOf(by[:], []byte{d.GetHeight(), byte(d.GetHashFunction()), byte(d.GetSignatureType()), byte(d.GetAddrFormatType())})
 	case "xdescnew":
-		d := xmss.NewQRLDescriptor(uint8(2*(a%16)), xmss.HashFunction(b%3), common.XMSSSig, common.SHA256_2X)
+		// mostly canonical field values, sometimes odd heights or values beyond a nibble
+		ht, sg, af := uint8(2*(a%16)), common.XMSSSig, common.SHA256_2X
+		if b%4 == 3 {
+			ht = uint8(a % 40)
+		}
+		if b%8 == 7 {
+			sg, af = common.SignatureType(a%20), common.AddrFormatType(b%20)
+		}
+		d := xmss.NewQRLDescriptor(ht, xmss.HashFunction(b%3), sg, af)
 		by := d.GetBytes()
 		e := xmss.NewQRLDescriptorFromExtendedSeed(f.Ext[a%len(f.Ext)])
 		ey := e.GetBytes()
@@ -401,6 +420,12 @@ func (f *Fix) exec(c Call, priv *xmss.XMSS, h *held) (res string) {
 	case "dverify":
 		s := &f.DSig[a%len(f.DSig)]
 		return digestOf(bb(dilithium.Verify(f.Msgs[s.msg], s.sig, &f.DilPK[s.key])))
+	case "dverifybuf":
+		// a verifier that keeps ONE public-key buffer and overwrites it in place for every signer
+		s := &f.DSig[a%len(f.DSig)]
+		buf := f.pkBuf(h)
+		*buf = f.DilPK[s.key]
+		return digestOf(bb(dilithium.Verify(f.Msgs[s.msg], s.sig, buf)))
 	case "dverifymany":
 		// a verifier working through a batch of signatures from many signers
 		var verdicts []byte
